@@ -30,8 +30,10 @@ ASSUMPTIONS = [
 # --------------------------------------------------------------------------- mutants
 
 NAME_POOL = G.FIELD_NAMES + ["x", "y", "z", "w", "k1", "nope", "__typename", "T0", "T1", "I0", "U0", "Query", "Color"]
-LITS = ["1", "-3", "2.5", '"s"', "true", "null", "RED", "[1]", "[]", '["a", null]', "[[1]]", "$v0", "$zz", "99999999999"]
-TYPES = ["Int", "Int!", "[Int]", "[Int!]!", "String", "Boolean!", "Boolean", "ID", "Float!", "Color", "[Color!]", "T0", "[[String]]"]
+LITS = ["1", "-3", "2.5", '"s"', "true", "null", "RED", "[1]", "[]", '["a", null]', "[[1]]", "$v0", "$zz", "99999999999",
+        "{}", "{p: 1}", '{a: "x"}', "{a: null}", '{a: "x", b: "y"}', "{q: $v1}", "[{}]", "{t: {}}"]
+TYPES = ["Int", "Int!", "[Int]", "[Int!]!", "String", "Boolean!", "Boolean", "ID", "Float!", "Color", "[Color!]", "T0", "[[String]]",
+         "In0", "In0!", "[In0]", "Pick", "Pick!", "In1"]
 
 
 def mutate(rng, text):
@@ -333,8 +335,8 @@ def run(tier):
         return ck.finish()
     m = Model("exec")
     t0 = time.time()
-    n_schemas, n_docs = (25, 40) if tier == "quick" else (300, 120)
-    budget = 75 if tier == "quick" else 900
+    n_schemas, n_docs = (20, 40) if tier == "quick" else (300, 120)
+    budget = 55 if tier == "quick" else 900
     for c in common.load_corpus("C13"):
         run_corpus_case(ck, m, c)
     for i in range(n_schemas):
